@@ -87,6 +87,13 @@ CLAIMED.update({
             "domain restricted to what the text formats can express (see assumptions in the evidence); make_notebook.py imported from the working tree"),
 })
 
+CLAIMED.update({
+    "C19": ("argument snapshots before/after every registry operation; same cases evaluated under several PYTHONHASHSEED values and result signatures compared across processes; "
+            "model-based call histories with repeated probes; logging on/off differential",
+            "registry of 65 pure operations x generated arguments; 6 (quick) / 16 (thorough) interpreter processes with different hash seeds; histories of up to 14 steps",
+            "signatures as described in the evidence assumptions; PDA arguments closure-complete within limit 60; hash orders are sampled, not enumerated"),
+})
+
 NOT_YET = {
 }
 
